@@ -182,7 +182,8 @@ static void part_module(Ctx& ctx, uint64_t N) {
   const int na = sizeof(A0) / sizeof(A0[0]);
   Rng rng(ctx.args.seed + N);
   for (int variant = 0; variant < 2; ++variant)
-    for (uint64_t as = 0; as <= 3; ++as) for (uint64_t ds = 0; ds <= 3; ++ds) for (uint64_t os = 0; os <= 3; ++os) for (uint64_t asl : {N, N + 1, N + 3}) {
+    for (uint64_t as = 0; as <= 3; ++as) for (uint64_t ds = 0; ds <= 3; ++ds) for (uint64_t os = 0; os <= 3; ++os) for (uint64_t asl : std::vector<uint64_t>{N, N + 1, N + 3, N - 1, N / 2, 0}) {  // a source is only read: overlapping (stride < N) and replicated (stride 0) limbs are stride combinations too
+      if (asl < N && (N < 2 || as < 2)) continue;
       std::string id = sfmt("module|%s|N=%llu|a_size=%llu,a_sl=%llu|dft_size=%llu|out_size=%llu", variant ? "vec_znx_idft_tmp_a" : "vec_znx_idft", (unsigned long long)N,
                             (unsigned long long)as, (unsigned long long)asl, (unsigned long long)ds, (unsigned long long)os);
       if (!ctx.want(id)) continue;
@@ -234,6 +235,6 @@ int main(int argc, char** argv) {
   ex.set("basis_complete_up_to_n", basis_max);
   return ctx.finish("exploration",
                     "envelope model and table facts for n=2^0..2^16 both directions; every basis vector of every n <= basis bound through ntt and every unit vector through intt (64 per case id); 6 extremal lane patterns x 6 for additivity / convolution; "
-                    "module-level dft->idft(_tmp_a) over (a_size,dft_size,out_size) in {0..3}^3 x strides x int64 alphabet; distinct = distinct case ids",
+                    "module-level dft->idft(_tmp_a) over (a_size,dft_size,out_size) in {0..3}^3 x strides (N, N+1, N+3, and for the read-only source also N-1, N/2, 0) x int64 alphabet; distinct = distinct case ids",
                     true, ex);
 }
